@@ -170,14 +170,54 @@ class LC:
             for d in ds:
                 if d.kind == 'stmt' and isinstance(d.ast, ast.Assign) and \
                         all(isinstance(t, ast.Name) for t in d.ast.targets):
-                    r = self.table(d.ast.value, d, depth + 1)
+                    filled = self.filled_dict(e.id, d)
+                    if filled is not None:
+                        r = {(filled[0], 'dict', 'keys')}
+                    else:
+                        r = self.table(d.ast.value, d, depth + 1)
                     if r is None:
                         return None
+                    m = self.mode_at(d)
+                    if m is not None:      # definition only executed in dict (True) / Case (False) mode
+                        r = {t for t in r if (t[1] == 'dict') == m}
                     out |= r
                 else:
                     return None
             return out
         return None
+
+    def filled_dict(self, name, d):
+        """`name = {}` at node d, filled by `for m in case[K].values(): name[<key>] = m`: (K, key expr, loop)."""
+        v = d.ast.value
+        if not (isinstance(v, ast.Dict) and not v.keys):
+            return None
+        found = []
+        for st in astx.walk_stmts(self.fn.node.body):
+            if isinstance(st, ast.Assign) and len(st.targets) == 1 and isinstance(st.targets[0], ast.Subscript) \
+                    and astx.path(st.targets[0].value) == name:
+                found.append(st)
+        if len(found) != 1:
+            return None
+        st = found[0]
+        loop = astx.enclosing(st, (ast.For, ast.While))
+        if not (isinstance(loop, ast.For) and st in loop.body and isinstance(loop.target, ast.Name) and
+                isinstance(st.value, ast.Name) and st.value.id == loop.target.id and
+                isinstance(loop.iter, ast.Call) and astx.callee_attr(loop.iter) == 'values' and not loop.iter.args):
+            return None
+        r = astx.receiver(loop.iter)
+        if not (isinstance(r, ast.Subscript) and astx.path(r.value) == self.case and
+                astx.const_str(r.slice) in ('inputs', 'outputs')):
+            return None
+        # the fill loop directly follows the empty definition (same block, nothing in between rebinding it)
+        blk = getattr(d.ast, '_parent', None)
+        body = None
+        for fld in ('body', 'orelse', 'finalbody'):
+            lst = getattr(blk, fld, None)
+            if isinstance(lst, list) and d.ast in lst:
+                body = lst
+        if body is None or loop not in body or body.index(loop) < body.index(d.ast):
+            return None
+        return astx.const_str(r.slice), st.targets[0].slice, loop
 
     def dict_key_kinds(self, e, at, kind, depth=0):
         """Kinds of key a dict-form table expression is keyed by: {'abs'|'prom'[_out]} or None if unknown."""
@@ -217,7 +257,17 @@ class LC:
             for d in ds:
                 if d.kind == 'stmt' and isinstance(d.ast, ast.Assign) and \
                         all(isinstance(t, ast.Name) for t in d.ast.targets):
-                    r = self.dict_key_kinds(d.ast.value, d, kind, depth + 1)
+                    if self.mode_at(d) is False:
+                        continue
+                    filled = self.filled_dict(e.id, d)
+                    if filled is not None:
+                        k = filled[1]
+                        if isinstance(k, ast.Subscript) and astx.const_str(k.slice) == 'prom_name':
+                            r = {'prom' + suf}
+                        else:
+                            r = None
+                    else:
+                        r = self.dict_key_kinds(d.ast.value, d, kind, depth + 1)
                     if r is None:
                         return None
                     out |= r
@@ -426,15 +476,7 @@ def _check_dict_entry(lc, out, loop):
     g, fn = lc.g, lc.fn
     if 'dict' not in loop.modes:
         return
-    builds = []
-    for n in g.nodes:
-        if n.kind == 'stmt' and isinstance(n.ast, ast.Assign) and \
-                isinstance(n.ast.value, (ast.DictComp, ast.Subscript)):
-            tk = lc.table(n.ast.value, n)
-            if tk and {(k, m) for k, m, _ in tk} == {(loop.kind, 'dict')}:
-                builds.append(n)
-    if not builds:
-        return
+    builds, odd, wrong = [], [], []
 
     def has_entry(t):
         """polarity of `'<kind>' in case` / `'<kind>' not in case`"""
@@ -445,6 +487,45 @@ def _check_dict_entry(lc, out, loop):
                 astx.const_str(t.left) == loop.kind and astx.path(t.comparators[0]) == lc.case:
             return isinstance(t.ops[0], ast.In)
         return None
+    for n in g.nodes:
+        if not (n.kind == 'stmt' and isinstance(n.ast, ast.Assign)):
+            continue
+        v = n.ast.value
+        if isinstance(v, ast.IfExp):
+            # `<table> if '<kind>' in case else None` (or the inverse)
+            for tab, other, want in ((v.body, v.orelse, True), (v.orelse, v.body, False)):
+                tk = lc.table(tab, n) if isinstance(tab, (ast.DictComp, ast.Subscript)) else None
+                if tk and {(k, m) for k, m, _ in tk} == {(loop.kind, 'dict')}:
+                    if has_entry(v.test) is want:
+                        builds.append(n)
+                    elif has_entry(v.test) is not None:
+                        wrong.append(n)      # table chosen exactly when its entry is absent
+                    elif isinstance(v.test, ast.Compare) and len(v.test.ops) == 1 and \
+                            isinstance(v.test.ops[0], (ast.In, ast.NotIn)) and \
+                            astx.const_str(v.test.left) not in (None, loop.kind) and \
+                            astx.path(v.test.comparators[0]) == lc.case:
+                        wrong.append(n)
+                    else:
+                        odd.append(n)
+        elif isinstance(v, (ast.DictComp, ast.Subscript)):
+            tk = lc.table(v, n)
+            if tk and {(k, m) for k, m, _ in tk} == {(loop.kind, 'dict')}:
+                builds.append(n)
+        elif isinstance(v, ast.Dict) and len(n.ast.targets) == 1 and isinstance(n.ast.targets[0], ast.Name):
+            f = lc.filled_dict(n.ast.targets[0].id, n)
+            if f is not None and f[0] == loop.kind:
+                builds.append(n)
+    if wrong:
+        out.bad(fn, wrong[0].ast, f"dict form: the {loop.kind} table is not taken from case['{loop.kind}'] exactly when that "
+                f"entry is present (selected by `{astx.src(wrong[0].ast.value.test)}`): the entry is ignored or "
+                f"raises KeyError", key=f'dict-{loop.kind}-not-built')
+        return
+    if odd:
+        out.unsure(fn, odd[0].ast, f"dict form: the {loop.kind} table is selected by a test other than "
+                   f"'{loop.kind}' in case")
+        return
+    if not builds:
+        return
 
     def edge_ok(n, m, lab):
         if n.kind == 'test' and lab in ('true', 'false') and isinstance(n.ast, ast.If):
@@ -759,6 +840,7 @@ class Site:
         self.name = astx.arg(call, 0, 'name')
         self.val = astx.arg(call, 1, 'val')
         self.scatter = None
+        self.variants = set()    # 'plain' / 'scatter': ways the stored value reaches this call
         self.problem = None      # (status, why, key)
         self.fetches = []
         self._analyse()
@@ -816,22 +898,24 @@ class Site:
             a = self._fetches(e.body, stmt, at, p, depth + 1)
             b = self._fetches(e.orelse, stmt, at, not p, depth + 1)
             return None if a is None or b is None else a + b
+        if isinstance(e, ast.Name):
+            return self._name_fetches(e, at, guard, depth + 1)
         form = 'plain'
         if isinstance(e, ast.Subscript) and astx.const_str(e.slice) == 'val':
             form, e = 'val', e.value
             if isinstance(e, ast.Name):
                 # index-then-unwrap: v = T[k] ... v = v['val']
-                inner = self._name_fetches(e, at, None, depth + 1)
+                inner = self._name_fetches(e, at, guard, depth + 1)
                 if inner is None or any(f.form != 'plain' for f in inner):
                     return None
-                return [Fetch(f.kinds, f.idx, 'val', stmt, guard) for f in inner]
+                return [Fetch(f.kinds, f.idx, 'val', stmt, guard if guard is not None else f.guard) for f in inner]
         if isinstance(e, ast.Subscript) and isinstance(e.slice, ast.Name):
             tk = lc.table(e.value, at)
             if tk and all(v == 'keys' for _, _, v in tk):
                 return [Fetch({(k, m) for k, m, _ in tk}, e.slice.id, form, stmt, guard)]
         return None
 
-    def _name_fetches(self, name, at, guard, depth=0):
+    def _name_fetches(self, name, at, guard, depth=0, top=False):
         """Fetches of every definition of local `name` reaching `at`; sets self.problem and returns None on failure."""
         lc = self.lc
         ds = lc.rd.defs(at, name.id)
@@ -847,7 +931,20 @@ class Site:
                     gd = self._lexical_guard(d.ast)
                 if gd is None:
                     gd = self._path_guard(d, name.id, at)
-                fs = self._fetches(d.ast.value, d.ast, d, gd, depth + 1)
+                v = d.ast.value
+                if top:
+                    self.variants.add('scatter' if isinstance(v, ast.Call) and
+                                      astx.callee_attr(v) == 'scatter_dist_to_local' else 'plain')
+                if isinstance(v, ast.Call) and astx.callee_attr(v) == 'scatter_dist_to_local' and v.args \
+                        and depth < 4:
+                    # v = scatter_dist_to_local(v, comm, sizes): the scattered copy of the same entry
+                    if self.scatter is None:
+                        self.scatter = (v, d)
+                    elif self.scatter[0] is not v:
+                        self._bad_def = d
+                        return None
+                    v = v.args[0]
+                fs = self._fetches(v, d.ast, d, gd, depth + 1)
             if fs is None:
                 self._bad_def = d
                 return None
@@ -862,13 +959,14 @@ class Site:
         v, at = self._resolve_temp(self.val, self.node)
         if isinstance(v, ast.Call) and astx.callee_attr(v) == 'scatter_dist_to_local':
             self.scatter = (v, at)
+            self.variants.add('scatter')
             if not v.args:
                 self.problem = ('unsure', 'scatter_dist_to_local arguments not recognised', None)
                 return
             v = v.args[0]
         self._bad_def = None
         if isinstance(v, ast.Name):
-            fs = self._name_fetches(v, at, None)
+            fs = self._name_fetches(v, at, None, top=not self.variants)
             if fs is None:
                 d = self._bad_def
                 if d is not None and d.kind == 'iter' and v.id in lc.loop_vars(self.loop):
@@ -978,8 +1076,10 @@ def taint(repo, out):
                 verdict = _check_scatter(lc, loop, s)
             if verdict is None:
                 forms = sorted({f.form for f in s.fetches})
-                out.ok(fn, st, f'value is {loop.kind}[{loop.var}] ({"/".join(forms)})'
-                       f'{" through scatter_dist_to_local" if s.scatter else ""}, stored under {nv}, no units/indices')
+                for variant in sorted(s.variants or {'plain'}):
+                    out.ok(fn, st, f'value is {loop.kind}[{loop.var}] ({"/".join(forms)})'
+                           f'{" through scatter_dist_to_local" if variant == "scatter" else ""}, stored under {nv}, '
+                           'no units/indices')
             elif verdict[0] == 'bad':
                 out.bad(fn, st, verdict[1], key=f'{verdict[2]}-{tag}')
             else:
@@ -1795,6 +1895,71 @@ _FINAL_TEMP = '''        for sys_name in sorted(system_overrides):
 '''
 
 
+_NORM = '''        if case_is_dict:
+            # case data comes from list_inputs/list_outputs, keyed on absolute pathname
+            # inputs are set by absolute name, outputs need to be keyed on promoted name
+            if 'inputs' in case:
+                inputs = case['inputs']
+            else:
+                inputs = None
+            if 'outputs' in case:
+                outputs = {meta['prom_name']: meta for meta in case['outputs'].values()}
+            else:
+                outputs = None
+        else:
+            inputs = case.inputs
+            outputs = case.outputs
+'''
+_NORM_ALT = '''        if not case_is_dict:
+            inputs = case.inputs
+            outputs = case.outputs
+        else:
+            inputs = case['inputs'] if 'inputs' in case else None
+            if 'outputs' not in case:
+                outputs = None
+            else:
+                outputs = {}
+                for out_meta in case['outputs'].values():
+                    outputs[out_meta['prom_name']] = out_meta
+'''
+_IN_TEMP_ITER = '''        if inputs:
+            if case_is_dict:
+                input_names = inputs
+            else:
+                input_names = inputs.absolute_names()
+
+            for abs_in in input_names:
+                if set_later(abs_in):
+                    continue
+
+                if not resolver.is_abs(abs_in, 'input'):
+                    issue_warning(f"{model.msginfo}: Input variable, '{abs_in}', recorded "
+                                  "in the case is not found in the model.")
+                    continue
+
+                val = inputs[abs_in]['val'] if case_is_dict else case.inputs[abs_in]
+
+                if model.comm.size > 1:
+                    if resolver.flags(abs_in, 'input') & DISTRIBUTED:
+                        sizes = model._var_sizes['input'][:, abs2idx[abs_in]]
+                        val = scatter_dist_to_local(val, model.comm, sizes)
+
+                model.set_val(abs_in, val)
+'''
+_OUT_TEMP_VAL = _OUT_BLOCK.replace(
+    "                    if case_is_dict:\n                        val = outputs[name]['val']\n                    else:\n                        val = outputs[name]\n",
+    "                    recorded = outputs[name]\n                    val = recorded['val'] if case_is_dict else recorded\n").replace(
+    "                        if model.comm.size > 1 and resolver.flags(abs_name) & DISTRIBUTED:\n"
+    "                            sizes = model._var_sizes['output'][:, abs2idx[abs_name]]\n"
+    "                            model.set_val(abs_name, scatter_dist_to_local(val, model.comm, sizes))\n"
+    "                        else:\n                            model.set_val(abs_name, val)\n",
+    "                        if not (model.comm.size > 1 and resolver.flags(abs_name) & DISTRIBUTED):\n"
+    "                            model.set_val(abs_name, val)\n                        else:\n"
+    "                            sizes = model._var_sizes['output'][:, abs2idx[abs_name]]\n"
+    "                            model.set_val(abs_name, scatter_dist_to_local(val, model.comm, sizes))\n")
+assert _OUT_TEMP_VAL != _OUT_BLOCK and 'recorded = outputs[name]' in _OUT_TEMP_VAL and 'if not (model.comm.size' in _OUT_TEMP_VAL
+
+
 def _shape_items():
     """Self-test items that quote whole blocks, for the current and for the repaired shape."""
     items = []
@@ -1992,6 +2157,36 @@ selftest(
     Mutant('refactored-branches-swapped-wrongly', PRB, _OUT_BLOCK,
            _OUT_EARLY.replace("if not resolver.is_prom(name, 'output'):", "if resolver.is_prom(name, 'output'):"),
            'C19.endpoint'),
+    # ---- second robustness round: accepted shapes and breaking variants inside them
+    Twin('twin-norm-inverted-ifexp-fill-loop', PRB, _NORM, _NORM_ALT),
+    Mutant('norm-alt-outputs-guard-not-inverted', PRB, _NORM, _NORM_ALT.replace("if 'outputs' not in case:", "if 'outputs' in case:"),
+           'C19.nodrop'),
+    Mutant('norm-alt-inputs-under-outputs-entry', PRB, _NORM,
+           _NORM_ALT.replace("case['inputs'] if 'inputs' in case else None", "case['inputs'] if 'outputs' in case else None"),
+           'C19.nodrop'),
+    Mutant('norm-alt-ifexp-branches-swapped', PRB, _NORM,
+           _NORM_ALT.replace("case['inputs'] if 'inputs' in case else None", "None if 'inputs' in case else case['inputs']"),
+           'C19.nodrop'),
+    Twin('twin-inputs-temp-iterable-merged-store', PRB, _IN_BLOCK, _IN_TEMP_ITER),
+    Mutant('temp-iterable-modes-swapped', PRB, _IN_BLOCK,
+           _IN_TEMP_ITER.replace("                input_names = inputs\n            else:\n                input_names = inputs.absolute_names()\n",
+                                 "                input_names = inputs.absolute_names()\n            else:\n                input_names = inputs\n"),
+           'C19.keyspace'),
+    Mutant('merged-store-only-in-parallel', PRB, _IN_BLOCK,
+           _IN_TEMP_ITER.replace("\n                model.set_val(abs_in, val)\n", "\n                    model.set_val(abs_in, val)\n"),
+           'C19.nodrop'),
+    Mutant('merged-store-scatter-wrong-io', PRB, _IN_BLOCK,
+           _IN_TEMP_ITER.replace("model._var_sizes['input'][:, abs2idx[abs_in]]", "model._var_sizes['output'][:, abs2idx[abs_in]]"),
+           'C19.taint'),
+    Mutant('merged-store-ifexp-forms-swapped', PRB, _IN_BLOCK,
+           _IN_TEMP_ITER.replace("inputs[abs_in]['val'] if case_is_dict else case.inputs[abs_in]",
+                                 "inputs[abs_in] if case_is_dict else case.inputs[abs_in]['val']"), 'C19.taint'),
+    Twin('twin-outputs-temp-value-negated-dist-guard', PRB, _OUT_BLOCK, _OUT_TEMP_VAL),
+    Mutant('temp-value-forms-swapped', PRB, _OUT_BLOCK,
+           _OUT_TEMP_VAL.replace("recorded['val'] if case_is_dict else recorded", "recorded if case_is_dict else recorded['val']"),
+           'C19.taint'),
+    Mutant('temp-value-wrong-table', PRB, _OUT_BLOCK,
+           _OUT_TEMP_VAL.replace("recorded = outputs[name]", "recorded = inputs[name]"), 'C19.taint'),
     # ---- twins
     Twin('twin-sorted-dict', PRB, 'for sys_name in sorted(system_overrides.keys()):', 'for sys_name in sorted(system_overrides):'),
     Twin('twin-items', PRB, _FINAL, '        for sys_name, sub in sorted(system_overrides.items()):\n            sub.load_case(case)\n'),
